@@ -1,6 +1,6 @@
 (* C01 — property theorems only (each closed by `exact <lemma>` and followed by Print Assumptions). *)
 From Coq Require Import List NArith ZArith Bool Permutation.
-From MW Require Import Common.Str C01.Model C01.Proofs C01.Gen_resolve C01.ProofsGen.
+From MW Require Import Common.Str C01.Model C01.Proofs C01.Gen_resolve C01.ProofsGen C01.Passes C01.ProofsPasses C01.ProofsPassesAnalyze.
 Import ListNotations.
 
 (* resolve_entity (util.py:212) with the except clause read from /repo on this run: for EVERY int() (any function
@@ -50,3 +50,56 @@ Example C01_compute_path_example :
   compute_path stable_sort [1] = Raise EValue.
 Proof. exact compute_path_example. Qed.
 Print Assumptions C01_compute_path_example.
+
+(* ------------------------------------------------------------------------------------------------------------------
+   The index-walking loops of the refinement passes (core.py; models in C01/Passes.v, one `step` per loop iteration, list
+   splices by firstn/skipn, tied to the real passes on abstract token lists by vt/harness/c01_passtie.py).  Each theorem:
+   for EVERY token list the fuelled loop returns a result — it never runs out of fuel (explicit measure that decreases
+   with every iteration: the loop either advances or shrinks the list), never raises — within a linear number of
+   iterations. *)
+Theorem C01_ParseSections_total : forall toks,
+  exists r iters, sec_run (sec_fuel toks) toks = POk (r, iters) /\ iters <= 2 * length toks.
+Proof. exact sec_run_total. Qed.
+Print Assumptions C01_ParseSections_total.
+
+(* tok_ok: item/colon prefixes are over : * # ; (what the scanner rules _uscan.re t_item and utoken.py t_colon produce) *)
+Theorem C01_ParseLines_total : forall toks, Forall tok_ok toks ->
+  exists r iters, lin_run (lin_fuel toks) toks = POk (r, iters) /\ iters <= 4 * length toks.
+Proof. exact lin_run_total. Qed.
+Print Assumptions C01_ParseLines_total.
+
+Theorem C01_ParseLines_analyze_total : forall L, Forall line_ok L ->
+  exists out, analyze_full L = POk out /\ length out <= 2 * length L.
+Proof. exact analyze_total. Qed.
+Print Assumptions C01_ParseLines_analyze_total.
+
+Theorem C01_ParseParagraphs_total : forall toks,
+  exists r iters, par_run (par_fuel toks) toks = POk (r, iters) /\ iters <= 2 * length toks.
+Proof. exact par_run_total. Qed.
+Print Assumptions C01_ParseParagraphs_total.
+
+(* compute_path is a parameter: any function that returns one state per count for counts >= 2 — which is what
+   C01_compute_path_bounded proves of the model of styleanalyzer.compute_path; qtok_ok: apostrophe runs have length >= 2 *)
+Theorem C01_ParseSingleQuote_total : forall cpath : list nat -> pres (list qst),
+  (forall counts, Forall (fun c => 2 <= c) counts ->
+     exists states, cpath counts = POk states /\ length states = length counts) ->
+  forall toks, Forall qtok_ok toks ->
+  exists r iters, sq_run cpath (sq_fuel toks) toks = POk (r, iters) /\ iters <= 2 * length toks.
+Proof. exact sq_run_total. Qed.
+Print Assumptions C01_ParseSingleQuote_total.
+
+Theorem C01_ParseUrls_total : forall toks,
+  exists r iters, url_run (url_fuel toks) toks = POk (r, iters) /\ iters <= 3 * length toks.
+Proof. exact url_run_total. Qed.
+Print Assumptions C01_ParseUrls_total.
+
+(* non-vacuity: a well-formed list and the model's results; a prefix outside : * # ; does raise in the model *)
+Example C01_passes_examples :
+  Forall tok_ok [Tok (KItem [PcStar]) 1%N []; Tok KOther 2%N []; Tok KNewline 3%N []]
+  /\ lin_run 13 [Tok (KItem [PcStar]) 1%N []; Tok KOther 2%N []; Tok KNewline 3%N []]
+     = POk ([Tok (KTag Tul false) 0%N [Tok (KTag Tli true) 0%N [Tok (KNode false) 0%N [Tok KOther 2%N []; Tok KNewline 3%N []]]]], 3)
+  /\ lin_run 9 [Tok (KItem [PcOther]) 1%N []; Tok KNewline 2%N []] = PRaise PAttr
+  /\ sec_run 9 [Tok (KSection 2) 1%N []; Tok KOther 2%N []; Tok (KSectionEnd 2) 3%N []; Tok KOther 4%N []]
+     = POk ([Tok (KSect 2) 0%N [Tok (KNode false) 0%N [Tok KOther 2%N []]; Tok (KNode false) 0%N [Tok KOther 4%N []]]], 4).
+Proof. exact passes_examples. Qed.
+Print Assumptions C01_passes_examples.
